@@ -290,11 +290,13 @@ render(char *out, size_t osz, const char *tree, const char *const atom[], int mo
 	t_render(out, osz, &s, atom, mode, 0, 0);
 }
 
-/* skeleton: leaves relabelled a, b, c.. in order of appearance, minimal parentheses */
+/* skeleton: leaves relabelled a, b, c.. in order of appearance, minimal parentheses,
+ * operators as words (`not(a or b)`, `a and (b or c)`): the driver derives file names
+ * from class keys by mapping every other character to '_', which would merge && and || */
 static void
 skeleton(char *out, size_t osz, const char *tree)
 {
-	char rel[MAXT];
+	char rel[MAXT], tmp[160];
 	static const char *const letters[MAXLEAF] = {"a", "b", "c", "d", "e"};
 	int map[10], next = 0;
 	size_t k = 0;
@@ -310,7 +312,22 @@ skeleton(char *out, size_t osz, const char *tree)
 		}
 	}
 	rel[k] = '\0';
-	render(out, osz, rel, letters, R_MIN);
+	render(tmp, sizeof(tmp), rel, letters, R_MIN);
+	k = 0;
+	for (const char *s = tmp; *s && k + 8 < osz; s++) {
+		if (s[0] == '&' && s[1] == '&') {
+			k += (size_t)snprintf(out + k, osz - k, " and ");
+			s++;
+		} else if (s[0] == '|' && s[1] == '|') {
+			k += (size_t)snprintf(out + k, osz - k, " or ");
+			s++;
+		} else if (s[0] == '!') {
+			k += (size_t)snprintf(out + k, osz - k, s[1] == '(' ? "not" : "not ");
+		} else {
+			out[k++] = *s;
+		}
+	}
+	out[k] = '\0';
 }
 
 /* ---- one expression in one child ---- */
@@ -744,10 +761,11 @@ struct aop {
 	const char *txt;
 	unsigned int truth;
 	int ordering;
+	const char *word;	/* for the class key (file-name safe) */
 };
 static const struct aop aops[] = {
-	{"=", 2U, 0}, {"!=", 5U, 0}, {"<", 1U, 1}, {"<=", 3U, 1}, {">", 4U, 1}, {">=", 6U, 1},
-	{"==", 2U, 0}, {"<>", 5U, 0}, {"", 2U, 0},
+	{"=", 2U, 0, "eq"}, {"!=", 5U, 0, "ne"}, {"<", 1U, 1, "lt"}, {"<=", 3U, 1, "le"}, {">", 4U, 1, "gt"}, {">=", 6U, 1, "ge"},
+	{"==", 2U, 0, "eqeq"}, {"<>", 5U, 0, "ltgt"}, {"", 2U, 0, "omitted"},
 };
 #define NAOP	((int)(sizeof(aops) / sizeof(*aops)))
 
@@ -790,7 +808,7 @@ do_atom(int fi, int oi, int neg, int replay)
 	ex_outcome(ex_hash_mix(ex_hash(expr, strlen(expr)), r.sel ^ ((uint64_t)r.stage << 8)));
 	snprintf(cas, sizeof(cas), "atom %d %d %d", fi, oi, neg);
 	snprintf(cmd, sizeof(cmd), "printf '%%s\\n' %s %s %s | dgrep '%s'", a->line[0], a->line[1], a->line[2], expr);
-	snprintf(key, sizeof(key), "atom %s op=%s%s", a->kind, o->txt[0] ? o->txt : "(none)", neg ? " negated" : "");
+	snprintf(key, sizeof(key), "atom %s op-%s%s", a->kind, o->word, neg ? " negated" : "");
 	if (replay) {
 		printf("  atom '%s': parse rc %d, stage %s, selected below/at/above = %u%u%u, comparison semantics say %u%u%u\n", expr, r.parse_rc,
 		       stage_name[r.stage], r.sel & 1U, (r.sel >> 1) & 1U, (r.sel >> 2) & 1U, want & 1U, (want >> 1) & 1U, (want >> 2) & 1U);
